@@ -88,16 +88,14 @@ let handle = function
   | ["ccopyval"; c; bs] ->
     let c = int_of_string c in
     if curdb.(c) < 0 then "INVALID_ARGS 0 -" else
-    (match db_cread (getdb curdb.(c)) (nat_of_int c) with
-     | Some (_, v) -> Printf.sprintf "OK %d %s" (List.length v) (hex_of_bytes (take (int_of_string bs) v))
+    (match db_ccopyval (getdb curdb.(c)) (nat_of_int c) (nat_of_int (int_of_string bs)) with
+     | Some (len, out) -> Printf.sprintf "OK %d %s" (int_of_nat len) (hex_of_bytes out)
      | None -> "NOTFOUND 0 -")
   | ["ccopykey"; c; bs] ->
     let c = int_of_string c in
     if curdb.(c) < 0 then "INVALID_ARGS 0 0 -" else
-    let d = getdb curdb.(c) in
-    (match db_cread d (nat_of_int c) with
-     | Some (k, _) -> let (b, comp) = api_key d.d_mode k in
-       Printf.sprintf "OK %d %s %s" (List.length b) (string_of_z comp) (hex_of_bytes (take (int_of_string bs) b))
+    (match db_ccopykey (getdb curdb.(c)) (nat_of_int c) (nat_of_int (int_of_string bs)) with
+     | Some ((len, comp), out) -> Printf.sprintf "OK %d %s %s" (int_of_nat len) (string_of_z comp) (hex_of_bytes out)
      | None -> "NOTFOUND 0 0 -")
   | ["cmatch"; c; k; comp] ->
     let c = int_of_string c in
